@@ -57,11 +57,11 @@ EXC_NAMES = ['ValueError', 'KeyError', 'TypeError', 'AssertionError', 'RuntimeEr
              'TimeoutError', 'TimeoutError', 'NotImplementedError', 'RecursionError', 'ConnectionResetError', 'FileNotFoundError', 'IndexError',
              'StopAsyncIteration', 'MemoryError', 'ZzUnprintable', 'ArithmeticError', 'LookupError', 'PermissionError', 'BufferError', 'EOFError', 'ImportError', 'NameError']
 
-ERR_CODES = [0, 1, -1, 7, 2005, -32700, -32600, -32601, -32602, -32603, -32000, -32001, -32050, -32099, 2001, 2002, 2**31, -2**31, 10**30]
+ERR_CODES = [0, 1, -1, 7, 2005, 2006, -32700, -32600, -32601, -32602, -32603, -32000, -32001, -32050, -32099, 2001, 2002, 2**31, -2**31, 10**30]
 
 
 _TYPED = ['ParseError', 'InvalidRequestError', 'MethodNotFoundError', 'InvalidParamsError', 'InternalError',
-          'ServerError', 'Custom2001', 'Custom2002', 'Custom2003', 'Custom2004', 'Custom2005', 'SrvRange', 'ZeroCode']
+          'ServerError', 'Custom2001', 'Custom2002', 'Custom2003', 'Custom2004', 'Custom2005', 'Custom2006Refined', 'SrvRange', 'ZeroCode']
 _MESSAGES = ['', 'm', 'Method not found'] + jg.EDGE_STRINGS
 
 
